@@ -393,7 +393,6 @@ func checkC10(c *Ctx) Meta {
 	pre := c.MustFn("C10-ORDER", "poc/engine/massdb/massdb.v1", "(*MassDBV1).prePlotWork")
 	plot := c.MustFn("C10-ORDER", "poc/engine/massdb/massdb.v1", "(*MassDBV1).plotWork")
 	upd := c.MustFn("C10-ERR", "poc/engine/massdb/massdb.v1", "(*HashMap).UpdateCheckpoint")
-	exec := c.MustFn("C10-REMOVE", "poc/engine/massdb/massdb.v1", "(*MassDBV1).executePlot")
 	if pre != nil {
 		checkPlotOrder(c, "C10-ORDER", pre, "HashMapA")
 	}
@@ -411,38 +410,7 @@ func checkC10(c *Ctx) Meta {
 
 	checkStopReturns(c, "C10-STOP")
 	checkFreshWindow(c, "C10-FRESH")
-	if exec != nil {
-		removes := callsIn(exec, "os.Remove", "os.RemoveAll")
-		pw := callsIn(exec, "(*"+pkgMassDBV1+".MassDBV1).prePlotWork")
-		plw := callsIn(exec, "(*"+pkgMassDBV1+".MassDBV1).plotWork")
-		if len(removes) == 0 || len(pw) != 1 || len(plw) != 1 {
-			c.Bad("C10-REMOVE", "executePlot:shape", c.Pos(exec.Pos()), "reason=anchor-missing: executePlot no longer calls prePlotWork, plotWork and os.Remove")
-		} else {
-			for i, passCall := range []*ssa.Call{pw[0], plw[0]} {
-				key := fmt.Sprintf("executePlot:remove-after-%s", []string{"prePlotWork", "plotWork"}[i])
-				// cut the success edge of this pass: Remove must become unreachable from entry
-				r := reach(exec, nil, errorEdgeCut(exec, passCall, false), nil)
-				bad := false
-				if len(errResults(passCall)) == 0 || len(nilTestsOf(exec, errResults(passCall)[0])) == 0 {
-					bad = true
-					c.Bad("C10-REMOVE", key, c.Pos(passCall.Pos()), "the pass's error is not tested before map A is removed")
-				}
-				for _, rm := range removes {
-					if r(rm) {
-						bad = true
-						c.Bad("C10-REMOVE", key, c.Pos(rm.Pos()), "os.Remove of map A is reachable although the pass did not return nil")
-					}
-					if !instrDominates(passCall, rm) {
-						bad = true
-						c.Bad("C10-REMOVE", key, c.Pos(rm.Pos()), "os.Remove of map A is not dominated by the pass")
-					}
-				}
-				if !bad {
-					c.OK("C10-REMOVE", key, c.Pos(passCall.Pos()), "os.Remove(filePathA) unreachable unless the pass returned nil")
-				}
-			}
-		}
-	}
+	checkRemoveAfterPasses(c, "C10-REMOVE")
 
 	// READY
 	if f := c.MustFn("C10-READY", "poc/engine/massdb/massdb.v1", "(*HashMapB).Progress"); f != nil {
@@ -1352,6 +1320,43 @@ func checkC07ScanOwn(c *Ctx) {
 			c.Bad("C07-OWN", key, c.Pos(f.Pos()), "reason=anchor-missing: no byte slice is returned")
 		} else {
 			c.OK("C07-OWN", key, c.Pos(f.Pos()), "returned slices are cut from a buffer allocated in the call")
+		}
+	}
+}
+
+// checkRemoveAfterPasses: map A is removed only after both passes returned nil (shared by C10 and C11).
+func checkRemoveAfterPasses(c *Ctx, rule string) {
+	exec := c.MustFn(rule, "poc/engine/massdb/massdb.v1", "(*MassDBV1).executePlot")
+	if exec != nil {
+		removes := callsIn(exec, "os.Remove", "os.RemoveAll")
+		pw := callsIn(exec, "(*"+pkgMassDBV1+".MassDBV1).prePlotWork")
+		plw := callsIn(exec, "(*"+pkgMassDBV1+".MassDBV1).plotWork")
+		if len(removes) == 0 || len(pw) != 1 || len(plw) != 1 {
+			c.Bad(rule, "executePlot:shape", c.Pos(exec.Pos()), "reason=anchor-missing: executePlot no longer calls prePlotWork, plotWork and os.Remove")
+		} else {
+			for i, passCall := range []*ssa.Call{pw[0], plw[0]} {
+				key := fmt.Sprintf("executePlot:remove-after-%s", []string{"prePlotWork", "plotWork"}[i])
+				// cut the success edge of this pass: Remove must become unreachable from entry
+				r := reach(exec, nil, errorEdgeCut(exec, passCall, false), nil)
+				bad := false
+				if len(errResults(passCall)) == 0 || len(nilTestsOf(exec, errResults(passCall)[0])) == 0 {
+					bad = true
+					c.Bad(rule, key, c.Pos(passCall.Pos()), "the pass's error is not tested before map A is removed")
+				}
+				for _, rm := range removes {
+					if r(rm) {
+						bad = true
+						c.Bad(rule, key, c.Pos(rm.Pos()), "os.Remove of map A is reachable although the pass did not return nil")
+					}
+					if !instrDominates(passCall, rm) {
+						bad = true
+						c.Bad(rule, key, c.Pos(rm.Pos()), "os.Remove of map A is not dominated by the pass")
+					}
+				}
+				if !bad {
+					c.OK(rule, key, c.Pos(passCall.Pos()), "os.Remove(filePathA) unreachable unless the pass returned nil")
+				}
+			}
 		}
 	}
 }
